@@ -258,6 +258,7 @@ class Arith:
         self.real_compare = False
         self._in_lift = False
         self.nf_events = []
+        self.choice_cls = None   # set by the interpreter: ite over values without a term representation
         self.tree_mode = False   # keep values as ite-trees with constant leaves (regime 2)
 
     # ---- helpers -------------------------------------------------
@@ -427,6 +428,8 @@ class Arith:
             if z3.is_int(ta) and z3.is_int(tb):
                 return z3.If(c, ta, tb)
             return z3.If(c, to_real(ta), to_real(tb))
+        if self.choice_cls is not None:
+            return self.choice_cls(c, a, b)
         raise Unsupported(f"ite of {type(a).__name__} and {type(b).__name__}")
 
     # ---- arithmetic ----------------------------------------------
